@@ -57,3 +57,13 @@ def replay_rewrite(ctx, scs, limit=120):
                 obs[sc['id']] = o
                 used.append(sc)
     return used, obs
+
+
+def prio_limit_configs():
+    """the -max-h2-priority-frames flag (and its default) against connections that captured 0..4 priorities"""
+    return [{'args': (['-max-h2-priority-frames=%d' % n] if n is not None else []), 'prio': [{'n': k} for k in range(5)]} for n in (0, 1, 2, 3, None)], [0, 1, 2, 3, 10000]
+
+
+def timeout_configs():
+    """the timeout flags: read back from the wired servers and observed on real connections"""
+    return [{'args': ['-timeout-tls-handshake=250ms', '-timeout-http-idle=300ms', '-timeout-http-read=7s', '-timeout-http-write=9s'], 'timeouts': True}]
